@@ -1,0 +1,143 @@
+// SPDX-FileCopyrightText: 2026 The Pion community <https://pion.ly>
+// SPDX-License-Identifier: MIT
+
+//go:build verif
+
+// Contracts (comment-only) for property C11: callbacks are delivered in order,
+// one at a time, exactly once. Proof by a lock invariant of handlerNotifier's
+// mutex. Per stream s: gE events were enqueued so far, gD were handed to the
+// drainer, gLog[k] is the k-th enqueued event and gDrainers counts live drainer
+// goroutines. The queue is exactly the window gLog[gD..gE).
+
+package ice
+
+//@ ghost field ice.handlerNotifier.gCsE int
+//@ ghost field ice.handlerNotifier.gCsD int
+//@ ghost field ice.handlerNotifier.gCsLog seq
+//@ ghost field ice.handlerNotifier.gCsDrainers int
+//@ ghost field ice.handlerNotifier.gCaE int
+//@ ghost field ice.handlerNotifier.gCaD int
+//@ ghost field ice.handlerNotifier.gCaLogT seq
+//@ ghost field ice.handlerNotifier.gCaLogV seq
+//@ ghost field ice.handlerNotifier.gCaDrainers int
+//@ ghost field ice.handlerNotifier.gPaE int
+//@ ghost field ice.handlerNotifier.gPaD int
+//@ ghost field ice.handlerNotifier.gPaLog seq
+//@ ghost field ice.handlerNotifier.gPaDrainers int
+
+//@ closeonly ice.handlerNotifier.done
+
+//@ lockprotects ice.handlerNotifier.Mutex connectionStates, runningConnectionStates, gCsE, gCsD, gCsLog, gCsDrainers
+//@ lockprotects ice.handlerNotifier.Mutex candidates, runningCandidates, gCaE, gCaD, gCaLogT, gCaLogV, gCaDrainers
+//@ lockprotects ice.handlerNotifier.Mutex selectedCandidatePairs, runningCandidatePairs, gPaE, gPaD, gPaLog, gPaDrainers
+
+//@ lockinv C11 ice.handlerNotifier.Mutex cs-queue-is-log-window: len(this.connectionStates) == this.gCsE - this.gCsD && this.gCsD >= 0
+//@ lockinv C11 ice.handlerNotifier.Mutex cs-queue-contents: forall p int :: this.connectionStates.off <= p && p < this.connectionStates.off + len(this.connectionStates) ==> elems(this.connectionStates)[p] == this.gCsLog[this.gCsD + (p - this.connectionStates.off)]
+//@ lockinv C11 ice.handlerNotifier.Mutex cs-at-most-one-drainer: (this.gCsDrainers == 0 || this.gCsDrainers == 1) && this.runningConnectionStates == (this.gCsDrainers == 1)
+//@ lockinv C11 ice.handlerNotifier.Mutex cs-pending-implies-drainer: len(this.connectionStates) > 0 ==> this.runningConnectionStates
+
+//@ lockinv C11 ice.handlerNotifier.Mutex ca-queue-is-log-window: len(this.candidates) == this.gCaE - this.gCaD && this.gCaD >= 0
+//@ lockinv C11 ice.handlerNotifier.Mutex ca-queue-contents: forall p int :: this.candidates.off <= p && p < this.candidates.off + len(this.candidates) ==> elemsT(this.candidates)[p] == this.gCaLogT[this.gCaD + (p - this.candidates.off)] && elemsV(this.candidates)[p] == this.gCaLogV[this.gCaD + (p - this.candidates.off)]
+//@ lockinv C11 ice.handlerNotifier.Mutex ca-at-most-one-drainer: (this.gCaDrainers == 0 || this.gCaDrainers == 1) && this.runningCandidates == (this.gCaDrainers == 1)
+//@ lockinv C11 ice.handlerNotifier.Mutex ca-pending-implies-drainer: len(this.candidates) > 0 ==> this.runningCandidates
+
+//@ lockinv C11 ice.handlerNotifier.Mutex pa-queue-is-log-window: len(this.selectedCandidatePairs) == this.gPaE - this.gPaD && this.gPaD >= 0
+//@ lockinv C11 ice.handlerNotifier.Mutex pa-queue-contents: forall p int :: this.selectedCandidatePairs.off <= p && p < this.selectedCandidatePairs.off + len(this.selectedCandidatePairs) ==> elems(this.selectedCandidatePairs)[p] == this.gPaLog[this.gPaD + (p - this.selectedCandidatePairs.off)]
+//@ lockinv C11 ice.handlerNotifier.Mutex pa-at-most-one-drainer: (this.gPaDrainers == 0 || this.gPaDrainers == 1) && this.runningCandidatePairs == (this.gPaDrainers == 1)
+//@ lockinv C11 ice.handlerNotifier.Mutex pa-pending-implies-drainer: len(this.selectedCandidatePairs) > 0 ==> this.runningCandidatePairs
+
+// ---- connection states ----
+//@ func (*handlerNotifier).EnqueueConnectionState
+//@   props C11
+//@   site call append#1 assert only-while-open: !closed(h.done)
+//@   site call append#1 ghost before h.gCsLog := store(h.gCsLog, h.gCsE, state)
+//@   site call append#1 ghost h.gCsE := h.gCsE + 1
+//@   site call EnqueueConnectionState$1#1 assert spawn-only-if-no-drainer: h.gCsDrainers == 0
+//@   site call EnqueueConnectionState$1#1 ghost h.gCsDrainers := h.gCsDrainers + 1
+//@   site call Add#1 assert waitgroup-add-precedes-spawn: arg1 == 1 && h.gCsDrainers == 0
+
+//@ func (*handlerNotifier).EnqueueConnectionState$1
+//@   props C11
+//@   ghostvar delivered int = 0 - 1
+//@   ghostvar holding bool = false
+//@   ghostvar pending bool = false
+//@   loop 1 invariant not-holding-between-iterations: !holding && !pending
+//@   site call Lock#1 ghost holding := true
+//@   site store connectionStates#1 ghost before delivered := h.gCsLog[h.gCsD]
+//@   site store connectionStates#1 assert pops-the-head: value.base == old(0) + h.connectionStates.base && value.off == h.connectionStates.off + 1 && len(value) == len(h.connectionStates) - 1
+//@   site store connectionStates#1 ghost h.gCsD := h.gCsD + 1
+//@   site store connectionStates#1 ghost pending := true
+//@   site store runningConnectionStates#1 assert stops-only-when-empty: value == false && len(h.connectionStates) == 0
+//@   site store runningConnectionStates#1 ghost h.gCsDrainers := h.gCsDrainers - 1
+//@   site call Unlock#1 ghost holding := false
+//@   site call Unlock#2 ghost holding := false
+//@   site call connectionStateFunc#0 assert handler-gets-next-logged-event: arg0 == delivered
+//@   site call connectionStateFunc#0 assert handler-runs-outside-the-lock: !holding
+//@   site call connectionStateFunc#0 assert exactly-once-per-pop: pending
+//@   site call connectionStateFunc#0 ghost pending := false
+//@   site call Done#1 assert waitgroup-done-on-exit: true
+
+// ---- candidates ----
+//@ func (*handlerNotifier).EnqueueCandidate
+//@   props C11
+//@   site call append#1 assert only-while-open: !closed(h.done)
+//@   site call append#1 ghost before h.gCaLogT := store(h.gCaLogT, h.gCaE, cand.dyntype)
+//@   site call append#1 ghost before h.gCaLogV := store(h.gCaLogV, h.gCaE, cand.payload)
+//@   site call append#1 ghost h.gCaE := h.gCaE + 1
+//@   site call EnqueueCandidate$1#1 assert spawn-only-if-no-drainer: h.gCaDrainers == 0
+//@   site call EnqueueCandidate$1#1 ghost h.gCaDrainers := h.gCaDrainers + 1
+//@   site call Add#1 assert waitgroup-add-precedes-spawn: arg1 == 1 && h.gCaDrainers == 0
+
+//@ func (*handlerNotifier).EnqueueCandidate$1
+//@   props C11
+//@   ghostvar delivered int = 0 - 1
+//@   ghostvar deliveredT int = 0 - 1
+//@   ghostvar holding bool = false
+//@   ghostvar pending bool = false
+//@   loop 1 invariant not-holding-between-iterations: !holding && !pending
+//@   site call Lock#1 ghost holding := true
+//@   site store candidates#1 ghost before delivered := h.gCaLogV[h.gCaD]
+//@   site store candidates#1 ghost before deliveredT := h.gCaLogT[h.gCaD]
+//@   site store candidates#1 assert pops-the-head: value.base == old(0) + h.candidates.base && value.off == h.candidates.off + 1 && len(value) == len(h.candidates) - 1
+//@   site store candidates#1 ghost h.gCaD := h.gCaD + 1
+//@   site store candidates#1 ghost pending := true
+//@   site store runningCandidates#1 assert stops-only-when-empty: value == false && len(h.candidates) == 0
+//@   site store runningCandidates#1 ghost h.gCaDrainers := h.gCaDrainers - 1
+//@   site call Unlock#1 ghost holding := false
+//@   site call Unlock#2 ghost holding := false
+//@   site call candidateFunc#0 assert handler-gets-next-logged-event: arg0.payload == delivered && arg0.dyntype == deliveredT
+//@   site call candidateFunc#0 assert handler-runs-outside-the-lock: !holding
+//@   site call candidateFunc#0 assert exactly-once-per-pop: pending
+//@   site call candidateFunc#0 ghost pending := false
+//@   site call Done#1 assert waitgroup-done-on-exit: true
+
+// ---- selected candidate pairs ----
+//@ func (*handlerNotifier).EnqueueSelectedCandidatePair
+//@   props C11
+//@   site call append#1 assert only-while-open: !closed(h.done)
+//@   site call append#1 ghost before h.gPaLog := store(h.gPaLog, h.gPaE, pair)
+//@   site call append#1 ghost h.gPaE := h.gPaE + 1
+//@   site call EnqueueSelectedCandidatePair$1#1 assert spawn-only-if-no-drainer: h.gPaDrainers == 0
+//@   site call EnqueueSelectedCandidatePair$1#1 ghost h.gPaDrainers := h.gPaDrainers + 1
+//@   site call Add#1 assert waitgroup-add-precedes-spawn: arg1 == 1 && h.gPaDrainers == 0
+
+//@ func (*handlerNotifier).EnqueueSelectedCandidatePair$1
+//@   props C11
+//@   ghostvar delivered int = 0 - 1
+//@   ghostvar holding bool = false
+//@   ghostvar pending bool = false
+//@   loop 1 invariant not-holding-between-iterations: !holding && !pending
+//@   site call Lock#1 ghost holding := true
+//@   site store selectedCandidatePairs#1 ghost before delivered := h.gPaLog[h.gPaD]
+//@   site store selectedCandidatePairs#1 assert pops-the-head: value.base == old(0) + h.selectedCandidatePairs.base && value.off == h.selectedCandidatePairs.off + 1 && len(value) == len(h.selectedCandidatePairs) - 1
+//@   site store selectedCandidatePairs#1 ghost h.gPaD := h.gPaD + 1
+//@   site store selectedCandidatePairs#1 ghost pending := true
+//@   site store runningCandidatePairs#1 assert stops-only-when-empty: value == false && len(h.selectedCandidatePairs) == 0
+//@   site store runningCandidatePairs#1 ghost h.gPaDrainers := h.gPaDrainers - 1
+//@   site call Unlock#1 ghost holding := false
+//@   site call Unlock#2 ghost holding := false
+//@   site call candidatePairFunc#0 assert handler-gets-next-logged-event: arg0 == delivered
+//@   site call candidatePairFunc#0 assert handler-runs-outside-the-lock: !holding
+//@   site call candidatePairFunc#0 assert exactly-once-per-pop: pending
+//@   site call candidatePairFunc#0 ghost pending := false
+//@   site call Done#1 assert waitgroup-done-on-exit: true
